@@ -48,9 +48,10 @@ def norm_state(S):
     return T
 
 
-def build_object(rng, kind):
-    cfg = history.Cfg(rng, kind, uni=rng.choice(JSON_UNIS))
-    cfg.n_ops = rng.randint(4, 30)
+def build_object(rng, kind, big=False):
+    cfg = history.Cfg(rng, kind, uni=rng.choice(JSON_UNIS), big=big)
+    if not big:
+        cfg.n_ops = rng.randint(4, 30)
     cfg.invalid_rate = 0.0
     cfg.avoid = {"copy"} | ({"clear"} if rng.random() < 0.9 else set())
     live, trace = history.run_history(NullCtx(), rng, cfg, battery_every=0)
@@ -96,7 +97,10 @@ def roundtrip_case(ctx, rng, idx, tmp):
 
     kind = "HDTM"[(idx // 4) % 4]
     try:
-        h, cfg, trace = build_object(rng, kind)
+        big = idx in (0, 1, 4, 5) or (ctx.tier == "thorough" and idx % 800 == 8)
+        if big:
+            ctx.event("big-object")
+        h, cfg, trace = build_object(rng, kind, big=big)
     except Exception as e:
         ctx.note("object-build-failed:" + type(e).__name__)
         return
@@ -105,7 +109,8 @@ def roundtrip_case(ctx, rng, idx, tmp):
     ctx.event("object:" + kind)
 
     def wit(extra=None):
-        return {"kind": kind, "object": before.describe(), "hgmd": before.hgmd, "extra": extra, "build_ops": trace[-10:]}
+        return {"kind": kind, "object": before.describe() if len(before.edges) <= 30 else {"nodes": len(before.nodes), "edges": len(before.edges)},
+                "hgmd": before.hgmd, "extra": extra, "build_ops": trace[-10:]}
 
     for fmt in ("json", "hgx"):
         path = os.path.join(tmp, f"obj.{fmt}")
